@@ -50,7 +50,7 @@ var alsoSink = map[string]bool{"ToBinary": true}
 
 type flowSummary struct {
 	sites  map[string]map[string]siteCnt // "Kind" -> local site (instruction of this function) -> number of distinct call paths from that site to a sink of this kind
-	sinks  map[string]flabel            // "Kind" -> strongest label
+	sinks  map[string]flabel             // "Kind" -> strongest label
 	rets   map[int]flabel
 	outs   map[int]flabel    // flows into the object of another parameter
 	stores map[string]flabel // "T.F" field-based heap stores
@@ -163,14 +163,14 @@ func structFieldKey(x *ssa.FieldAddr) string {
 // intra-procedural propagation
 
 type fstate struct {
-	e      *flowEngine
-	fn     *ssa.Function
-	taint  map[ssa.Value]flabel
-	tup    map[ssa.Value]map[int]flabel // call -> per-result taint
-	sum    *flowSummary
-	change bool
-	depth  int
-	cur    ssa.Instruction
+	e        *flowEngine
+	fn       *ssa.Function
+	taint    map[ssa.Value]flabel
+	tup      map[ssa.Value]map[int]flabel // call -> per-result taint
+	sum      *flowSummary
+	change   bool
+	depth    int
+	cur      ssa.Instruction
 	curParam int
 }
 
@@ -760,6 +760,27 @@ func (s *fstate) call(ci ssa.CallInstruction) {
 			sum := s.e.summary(callee, i, s.depth+1)
 			s.curParam = i
 			s.applySummary(sum, l, callVal, args, len(callee.Params), mc)
+		}
+		// what the captured variables flow to inside the closure was applied where the closure was created, except
+		// for flows into the parameters and results of this particular call (selectInto(&res, i) writing captured
+		// bits into res): apply those here
+		for k, b := range mc.Bindings {
+			l := s.chainLabel(b)
+			if l == lNone {
+				continue
+			}
+			sum := s.e.summary(callee, len(callee.Params)+k, s.depth+1)
+			if callVal != nil {
+				for j, rl := range sum.rets {
+					s.setResult(callVal, j, minLabel(l, rl))
+				}
+			}
+			for pk, ol := range sum.outs {
+				if pk < len(args) && pk < len(callee.Params) {
+					s.storeInto(args[pk], minLabel(l, ol))
+					s.set(args[pk], minLabel(l, ol))
+				}
+			}
 		}
 		return
 	}
